@@ -5267,7 +5267,8 @@ def _match_str(pat: str, tgt: _Targets, mstate: _MatchState) -> Mapping[str, Any
 
     elif isinstance(tgt, FSTView):
         if tgt.src != pat:
-            return None
+            if len(tgt) != 1 or not isinstance(s := tgt[0], str) or s != pat:  # single identifier element (Global/Nonlocal.names, MatchClass.kwd_attrs), source may not be NFKC normalized but identifier is
+                return None
 
     else:
         return None
